@@ -177,3 +177,216 @@ Print Assumptions C01_every_signature_resolves_concrete.
 Print Assumptions C01_offset_size_codec_roundtrip.
 Print Assumptions C01_blocktime_file_roundtrip.
 Print Assumptions C01_checker_offsets_are_model_offsets.
+
+(* ================================================================ the Go functions themselves, TRANSLATED
+   On every check gen/golite.go re-translates indexes/uints.go (Uint24tob, BtoUint24, Uint40tob, BtoUint40, Uint48tob,
+   BtoUint48, Uint64tob, BtoUint64, cloneAndPad) and indexes/offset-and-size.go ((OffsetAndSize).Bytes, FromBytes,
+   IsValid) from /repo's working tree into the GoLite fragment (Generated/GoLiteC01.v; semantics: GoLite.v —
+   fixed-width wrap-around, panics on bad indexes / explicit panic(), fuel for calls).  The theorems below state that
+   the translated functions ARE the value codec of the model above (enc_os / dec_os, built from Codec.le_enc /
+   Codec.le_dec; C01_offset_size_codec_roundtrip, C01_recorded_offsets_are_true are about them); they are re-proved
+   against what the source says now.  Byte lists of the model (list N) appear as [map Z.of_N]; a struct value is
+   written out with its two fields; [fuel] bounds the call depth (Bytes, BtoUintN: 1; FromBytes: 2). *)
+Require YF.GoLite YF.Generated.GoLiteC01 YF.GoLiteC01_Codec.
+Import ZArith String.
+
+(* uints.go:UintNtob v is the first N/8 little-endian bytes of v (Codec.le_enc) for every v below 2^N ... *)
+Theorem C01_translated_uint_encoders_are_le_enc : forall ext fuel (v : N),
+  ((v < 2 ^ 24)%N -> GoLite.call GoLiteC01.prog ext fuel "Uint24tob"%string [GoLite.VInt (Z.of_N v)]
+                     = GoLite.RRet (GoLite.VInts (map Z.of_N (Codec.le_enc 3 v)))) /\
+  ((v < 2 ^ 40)%N -> GoLite.call GoLiteC01.prog ext fuel "Uint40tob"%string [GoLite.VInt (Z.of_N v)]
+                     = GoLite.RRet (GoLite.VInts (map Z.of_N (Codec.le_enc 5 v)))) /\
+  ((v < 2 ^ 48)%N -> GoLite.call GoLiteC01.prog ext fuel "Uint48tob"%string [GoLite.VInt (Z.of_N v)]
+                     = GoLite.RRet (GoLite.VInts (map Z.of_N (Codec.le_enc 6 v)))) /\
+  GoLite.call GoLiteC01.prog ext fuel "Uint64tob"%string [GoLite.VInt (Z.of_N v)]
+                     = GoLite.RRet (GoLite.VInts (map Z.of_N (Codec.le_enc 8 v))).
+Proof.
+  exact (fun ext fuel v =>
+    conj (GoLiteC01_Codec.Uint24tob_is_le_enc GoLiteC01.prog GoLiteC01.prog_Uint24tob ext fuel v)
+   (conj (GoLiteC01_Codec.Uint40tob_is_le_enc GoLiteC01.prog GoLiteC01.prog_Uint40tob ext fuel v)
+   (conj (GoLiteC01_Codec.Uint48tob_is_le_enc GoLiteC01.prog GoLiteC01.prog_Uint48tob ext fuel v)
+         (GoLiteC01_Codec.Uint64tob_is_le_enc GoLiteC01.prog GoLiteC01.prog_Uint64tob ext fuel v)))).
+Qed.
+
+(* ... and PANICS for every v at or above 2^N (Uint64tob has no check and never panics) *)
+Theorem C01_translated_uint_encoders_panic_out_of_range : forall ext fuel (v : N),
+  ((2 ^ 24 <= v)%N -> GoLite.call GoLiteC01.prog ext fuel "Uint24tob"%string [GoLite.VInt (Z.of_N v)] = GoLite.RPanic) /\
+  ((2 ^ 40 <= v)%N -> GoLite.call GoLiteC01.prog ext fuel "Uint40tob"%string [GoLite.VInt (Z.of_N v)] = GoLite.RPanic) /\
+  ((2 ^ 48 <= v)%N -> GoLite.call GoLiteC01.prog ext fuel "Uint48tob"%string [GoLite.VInt (Z.of_N v)] = GoLite.RPanic).
+Proof.
+  exact (fun ext fuel v =>
+    conj (GoLiteC01_Codec.Uint24tob_panics GoLiteC01.prog GoLiteC01.prog_Uint24tob ext fuel v)
+   (conj (GoLiteC01_Codec.Uint40tob_panics GoLiteC01.prog GoLiteC01.prog_Uint40tob ext fuel v)
+         (GoLiteC01_Codec.Uint48tob_panics GoLiteC01.prog GoLiteC01.prog_Uint48tob ext fuel v))).
+Qed.
+
+(* uints.go:BtoUintN on a buffer of exactly N/8 bytes is Codec.le_dec of the buffer (BtoUint64: of the first 8 bytes
+   of any buffer of at least 8 bytes) ... *)
+Theorem C01_translated_uint_decoders_are_le_dec : forall ext fuel (bs : list N), 1 <= fuel ->
+  (List.length bs = 3 -> GoLite.call GoLiteC01.prog ext fuel "BtoUint24"%string [GoLite.VInts (map Z.of_N bs)]
+                    = GoLite.RRet (GoLite.VInt (Z.of_N (Codec.le_dec bs)))) /\
+  (List.length bs = 5 -> GoLite.call GoLiteC01.prog ext fuel "BtoUint40"%string [GoLite.VInts (map Z.of_N bs)]
+                    = GoLite.RRet (GoLite.VInt (Z.of_N (Codec.le_dec bs)))) /\
+  (List.length bs = 6 -> GoLite.call GoLiteC01.prog ext fuel "BtoUint48"%string [GoLite.VInts (map Z.of_N bs)]
+                    = GoLite.RRet (GoLite.VInt (Z.of_N (Codec.le_dec bs)))) /\
+  (8 <= List.length bs -> GoLite.call GoLiteC01.prog ext fuel "BtoUint64"%string [GoLite.VInts (map Z.of_N bs)]
+                    = GoLite.RRet (GoLite.VInt (Z.of_N (Codec.le_dec (firstn 8 bs))))).
+Proof.
+  exact (fun ext fuel bs Hf =>
+    conj (GoLiteC01_Codec.BtoUint24_is_le_dec GoLiteC01.prog GoLiteC01.prog_BtoUint24 GoLiteC01.prog_cloneAndPad ext fuel bs Hf)
+   (conj (GoLiteC01_Codec.BtoUint40_is_le_dec GoLiteC01.prog GoLiteC01.prog_BtoUint40 GoLiteC01.prog_cloneAndPad ext fuel bs Hf)
+   (conj (GoLiteC01_Codec.BtoUint48_is_le_dec GoLiteC01.prog GoLiteC01.prog_BtoUint48 GoLiteC01.prog_cloneAndPad ext fuel bs Hf)
+         (GoLiteC01_Codec.BtoUint64_is_le_dec GoLiteC01.prog GoLiteC01.prog_BtoUint64 ext fuel bs)))).
+Qed.
+
+(* ... on a LONGER buffer BtoUint24 / BtoUint40 / BtoUint48 do NOT decode "the first 3 / 5 / 6 bytes": cloneAndPad
+   keeps the whole buffer, so Uint32 / Uint64 read its first 4 / 8 bytes (the callers in the repository pass slices of
+   exactly 3 / 5 / 6 bytes).  Exact value for every buffer that is long enough (fewer than 2^62 elements, so that
+   len(buf)+pad does not wrap): *)
+Theorem C01_translated_uint_decoders_read_whole_words : forall ext fuel (buf : list Z), 1 <= fuel ->
+  (Z.of_nat (List.length buf) < 4611686018427387904)%Z ->
+  (3 <= List.length buf -> GoLite.call GoLiteC01.prog ext fuel "BtoUint24"%string [GoLite.VInts buf]
+                      = GoLite.RRet (GoLite.VInt (GoLite.le_value (firstn 4 buf)))) /\
+  (5 <= List.length buf -> GoLite.call GoLiteC01.prog ext fuel "BtoUint40"%string [GoLite.VInts buf]
+                      = GoLite.RRet (GoLite.VInt (GoLite.le_value (firstn 8 buf)))) /\
+  (6 <= List.length buf -> GoLite.call GoLiteC01.prog ext fuel "BtoUint48"%string [GoLite.VInts buf]
+                      = GoLite.RRet (GoLite.VInt (GoLite.le_value (firstn 8 buf)))).
+Proof.
+  exact (fun ext fuel buf Hf Hl =>
+    conj (fun Hk => GoLiteC01_Codec.BtoUint24_value GoLiteC01.prog GoLiteC01.prog_BtoUint24 GoLiteC01.prog_cloneAndPad ext fuel buf Hf Hk Hl)
+   (conj (fun Hk => GoLiteC01_Codec.BtoUint40_value GoLiteC01.prog GoLiteC01.prog_BtoUint40 GoLiteC01.prog_cloneAndPad ext fuel buf Hf Hk Hl)
+         (fun Hk => GoLiteC01_Codec.BtoUint48_value GoLiteC01.prog GoLiteC01.prog_BtoUint48 GoLiteC01.prog_cloneAndPad ext fuel buf Hf Hk Hl))).
+Qed.
+Example C01_translated_BtoUint48_reads_byte_six :
+  GoLite.call GoLiteC01.prog GoLite.no_ext 1 "BtoUint48"%string [GoLite.VInts [0; 0; 0; 0; 0; 0; 1]%Z]
+  = GoLite.RRet (GoLite.VInt 281474976710656%Z).
+Proof. vm_compute. reflexivity. Qed.
+
+(* ... and on a buffer shorter than N/8 bytes the bounds hint `_ = buf[N/8-1]` PANICS (for every fuel) *)
+Theorem C01_translated_uint_decoders_panic_on_short_buffers : forall ext fuel (buf : list Z),
+  (List.length buf < 3 -> GoLite.call GoLiteC01.prog ext fuel "BtoUint24"%string [GoLite.VInts buf] = GoLite.RPanic) /\
+  (List.length buf < 5 -> GoLite.call GoLiteC01.prog ext fuel "BtoUint40"%string [GoLite.VInts buf] = GoLite.RPanic) /\
+  (List.length buf < 6 -> GoLite.call GoLiteC01.prog ext fuel "BtoUint48"%string [GoLite.VInts buf] = GoLite.RPanic) /\
+  (List.length buf < 8 -> GoLite.call GoLiteC01.prog ext fuel "BtoUint64"%string [GoLite.VInts buf] = GoLite.RPanic).
+Proof.
+  exact (fun ext fuel buf =>
+    conj (GoLiteC01_Codec.BtoUint24_short_panics GoLiteC01.prog GoLiteC01.prog_BtoUint24 ext fuel buf)
+   (conj (GoLiteC01_Codec.BtoUint40_short_panics GoLiteC01.prog GoLiteC01.prog_BtoUint40 ext fuel buf)
+   (conj (GoLiteC01_Codec.BtoUint48_short_panics GoLiteC01.prog GoLiteC01.prog_BtoUint48 ext fuel buf)
+         (GoLiteC01_Codec.BtoUint64_short_panics GoLiteC01.prog GoLiteC01.prog_BtoUint64 ext fuel buf)))).
+Qed.
+
+(* offset-and-size.go:(OffsetAndSize).Bytes IS the model's encoder enc_os (6-byte offset ++ 3-byte size) wherever
+   enc_os is defined, i.e. for Offset <= max_u48 and Size <= max_u24 ... *)
+Theorem C01_translated_Bytes_is_enc_os : forall ext fuel (off size : N) v, 1 <= fuel ->
+  enc_os off size = Some v ->
+  GoLite.call GoLiteC01.prog ext fuel "OffsetAndSize.Bytes"%string
+    [GoLite.VStruct [("Offset"%string, GoLite.VInt (Z.of_N off)); ("Size"%string, GoLite.VInt (Z.of_N size))]]
+  = GoLite.RRet (GoLite.VInts (map Z.of_N v)).
+Proof. exact (GoLiteC01_Codec.Bytes_is_enc_os GoLiteC01.prog GoLiteC01.prog_Uint24tob GoLiteC01.prog_Uint48tob GoLiteC01.prog_OffsetAndSize_Bytes). Qed.
+
+(* ... it PANICS wherever enc_os is undefined, as long as Size fits 32 bits ... *)
+Theorem C01_translated_Bytes_panics_outside_enc_os : forall ext fuel (off size : N), 1 <= fuel -> (size < 2 ^ 32)%N ->
+  enc_os off size = None ->
+  GoLite.call GoLiteC01.prog ext fuel "OffsetAndSize.Bytes"%string
+    [GoLite.VStruct [("Offset"%string, GoLite.VInt (Z.of_N off)); ("Size"%string, GoLite.VInt (Z.of_N size))]]
+  = GoLite.RPanic.
+Proof. exact (GoLiteC01_Codec.Bytes_panics_outside_enc_os GoLiteC01.prog GoLiteC01.prog_Uint24tob GoLiteC01.prog_Uint48tob GoLiteC01.prog_OffsetAndSize_Bytes). Qed.
+
+(* ... and the exact result for EVERY struct: `uint32(oas.Size)` truncates Size to its low 32 bits BEFORE Uint24tob
+   checks the range, so a Size >= 2^32 whose low 32 bits are <= max_u24 is encoded, truncated, WITHOUT a panic (the
+   index writer checks IsValid-like bounds before calling Bytes; enc_os models that checked path) *)
+Theorem C01_translated_Bytes_exact : forall ext fuel (off size : N), 1 <= fuel ->
+  GoLite.call GoLiteC01.prog ext fuel "OffsetAndSize.Bytes"%string
+    [GoLite.VStruct [("Offset"%string, GoLite.VInt (Z.of_N off)); ("Size"%string, GoLite.VInt (Z.of_N size))]]
+  = if (N.leb off max_u48 && N.leb (size mod 2 ^ 32) max_u24)%bool
+    then GoLite.RRet (GoLite.VInts (map Z.of_N (Codec.le_enc 6 off ++ Codec.le_enc 3 (size mod 2 ^ 32))))
+    else GoLite.RPanic.
+Proof. exact (GoLiteC01_Codec.Bytes_exact GoLiteC01.prog GoLiteC01.prog_Uint24tob GoLiteC01.prog_Uint48tob GoLiteC01.prog_OffsetAndSize_Bytes). Qed.
+Example C01_translated_Bytes_truncates_size :
+  enc_os 1000000 (2 ^ 32 + 5) = None /\
+  GoLite.call GoLiteC01.prog GoLite.no_ext 1 "OffsetAndSize.Bytes"%string
+    [GoLite.VStruct [("Offset"%string, GoLite.VInt 1000000%Z); ("Size"%string, GoLite.VInt 4294967301%Z)]]
+  = GoLite.RRet (GoLite.VInts [64; 66; 15; 0; 0; 0; 5; 0; 0]%Z).
+Proof. vm_compute. split; reflexivity. Qed.
+
+(* offset-and-size.go:(OffsetAndSize).FromBytes IS the model's decoder dec_os: the error (receiver unchanged)
+   exactly when the length is not 9, else nil and Offset, Size = what dec_os decodes.  For every receiver and every
+   buffer of bytes; result = (error, receiver after the call). *)
+Theorem C01_translated_FromBytes_is_dec_os : forall ext fuel (o0 s0 : GoLite.val) (bs : list N), 2 <= fuel ->
+  Forall (fun b => (b < 256)%N) bs ->
+  GoLite.call GoLiteC01.prog ext fuel "OffsetAndSize.FromBytes"%string
+    [GoLite.VStruct [("Offset"%string, o0); ("Size"%string, s0)]; GoLite.VInts (map Z.of_N bs)]
+  = GoLite.RRet
+      match dec_os bs with
+      | Some (off, len) =>
+          GoLite.VTuple [GoLite.VNil;
+            GoLite.VStruct [("Offset"%string, GoLite.VInt (Z.of_N off)); ("Size"%string, GoLite.VInt (Z.of_N len))]]
+      | None =>
+          GoLite.VTuple [GoLite.VErr "errors.New: invalid byte slice length"%string;
+            GoLite.VStruct [("Offset"%string, o0); ("Size"%string, s0)]]
+      end.
+Proof. exact (GoLiteC01_Codec.FromBytes_is_dec_os GoLiteC01.prog GoLiteC01.prog_BtoUint24 GoLiteC01.prog_BtoUint48 GoLiteC01.prog_cloneAndPad GoLiteC01.prog_OffsetAndSize_FromBytes). Qed.
+
+(* round trip through the TRANSLATED functions: FromBytes (Bytes x) = x for every valid x (the translated counterpart
+   of C01_offset_size_codec_roundtrip) *)
+Theorem C01_translated_codec_roundtrip : forall ext f1 f2 (o0 s0 : GoLite.val) (off size : N), 1 <= f1 -> 2 <= f2 ->
+  (off <= max_u48)%N -> (size <= max_u24)%N ->
+  exists bytes,
+    GoLite.call GoLiteC01.prog ext f1 "OffsetAndSize.Bytes"%string
+      [GoLite.VStruct [("Offset"%string, GoLite.VInt (Z.of_N off)); ("Size"%string, GoLite.VInt (Z.of_N size))]]
+    = GoLite.RRet (GoLite.VInts bytes) /\
+    GoLite.call GoLiteC01.prog ext f2 "OffsetAndSize.FromBytes"%string
+      [GoLite.VStruct [("Offset"%string, o0); ("Size"%string, s0)]; GoLite.VInts bytes]
+    = GoLite.RRet (GoLite.VTuple [GoLite.VNil;
+        GoLite.VStruct [("Offset"%string, GoLite.VInt (Z.of_N off)); ("Size"%string, GoLite.VInt (Z.of_N size))]]).
+Proof.
+  exact (GoLiteC01_Codec.FromBytes_Bytes_roundtrip GoLiteC01.prog GoLiteC01.prog_Uint24tob GoLiteC01.prog_BtoUint24
+           GoLiteC01.prog_Uint48tob GoLiteC01.prog_BtoUint48 GoLiteC01.prog_cloneAndPad
+           GoLiteC01.prog_OffsetAndSize_Bytes GoLiteC01.prog_OffsetAndSize_FromBytes).
+Qed.
+
+(* offset-and-size.go:(OffsetAndSize).IsValid is the range predicate that guards enc_os: true exactly when enc_os
+   is defined *)
+Theorem C01_translated_IsValid_is_the_enc_os_guard : forall ext fuel (off size : N),
+  GoLite.call GoLiteC01.prog ext fuel "OffsetAndSize.IsValid"%string
+    [GoLite.VStruct [("Offset"%string, GoLite.VInt (Z.of_N off)); ("Size"%string, GoLite.VInt (Z.of_N size))]]
+  = GoLite.RRet (GoLite.VBool (N.leb off max_u48 && N.leb size max_u24)) /\
+  (N.leb off max_u48 && N.leb size max_u24)%bool = match enc_os off size with Some _ => true | None => false end.
+Proof.
+  exact (fun ext fuel off size =>
+    conj (GoLiteC01_Codec.IsValid_is_guard GoLiteC01.prog GoLiteC01.prog_OffsetAndSize_IsValid ext fuel off size)
+         (GoLiteC01_Codec.guard_is_enc_os_defined off size)).
+Qed.
+
+(* non-vacuity: the translated codec RUNS (vm_compute inside the kernel): Bytes of a concrete valid value gives the
+   model's nine bytes, FromBytes on them gives the value back, a wrong length gives the error, the bounds are exact *)
+Example C01_translated_functions_run :
+  let x := GoLite.VStruct [("Offset"%string, GoLite.VInt 123456789012%Z); ("Size"%string, GoLite.VInt 70000%Z)] in
+  let z := GoLite.VStruct [("Offset"%string, GoLite.VInt 0%Z); ("Size"%string, GoLite.VInt 0%Z)] in
+  enc_os 123456789012 70000 = Some [20; 26; 153; 190; 28; 0; 112; 17; 1]%N /\
+  GoLite.call GoLiteC01.prog GoLite.no_ext 1 "OffsetAndSize.Bytes"%string [x]
+    = GoLite.RRet (GoLite.VInts [20; 26; 153; 190; 28; 0; 112; 17; 1]%Z) /\
+  GoLite.call GoLiteC01.prog GoLite.no_ext 2 "OffsetAndSize.FromBytes"%string
+      [z; GoLite.VInts [20; 26; 153; 190; 28; 0; 112; 17; 1]%Z]
+    = GoLite.RRet (GoLite.VTuple [GoLite.VNil; x]) /\
+  GoLite.call GoLiteC01.prog GoLite.no_ext 2 "OffsetAndSize.FromBytes"%string
+      [z; GoLite.VInts [20; 26; 153; 190; 28; 0; 112; 17]%Z]
+    = GoLite.RRet (GoLite.VTuple [GoLite.VErr "errors.New: invalid byte slice length"%string; z]) /\
+  GoLite.call GoLiteC01.prog GoLite.no_ext 0 "Uint48tob"%string [GoLite.VInt 281474976710655%Z]
+    = GoLite.RRet (GoLite.VInts [255; 255; 255; 255; 255; 255]%Z) /\
+  GoLite.call GoLiteC01.prog GoLite.no_ext 0 "Uint48tob"%string [GoLite.VInt 281474976710656%Z] = GoLite.RPanic /\
+  GoLite.call GoLiteC01.prog GoLite.no_ext 1 "OffsetAndSize.IsValid"%string [x] = GoLite.RRet (GoLite.VBool true).
+Proof. vm_compute. repeat split; reflexivity. Qed.
+
+Print Assumptions C01_translated_uint_encoders_are_le_enc.
+Print Assumptions C01_translated_uint_encoders_panic_out_of_range.
+Print Assumptions C01_translated_uint_decoders_are_le_dec.
+Print Assumptions C01_translated_uint_decoders_read_whole_words.
+Print Assumptions C01_translated_uint_decoders_panic_on_short_buffers.
+Print Assumptions C01_translated_Bytes_is_enc_os.
+Print Assumptions C01_translated_Bytes_panics_outside_enc_os.
+Print Assumptions C01_translated_Bytes_exact.
+Print Assumptions C01_translated_FromBytes_is_dec_os.
+Print Assumptions C01_translated_codec_roundtrip.
+Print Assumptions C01_translated_IsValid_is_the_enc_os_guard.
